@@ -413,3 +413,7 @@ func runDebugPaths(spec string) int {
 	}
 	return 0
 }
+
+func init() {
+	debugRules["writematch"] = func(c *Ctx, r *Report) { ruleWriteMatchCE(c, r, "") }
+}
